@@ -72,7 +72,8 @@ def run(ctx: Ctx) -> None:
     if ctx.tier == "thorough":
         ctx.leanchecker(["O2P.Props.C07"])
     quick = ctx.tier == "quick"
-    cases = [c for c in lc.build_cases(ctx, 400 if quick else 4000, [4, 6, 8, 10, 12], with_corpus=True)
+    cases = [c for c in lc.build_cases(ctx, 400 if quick else 4000, [4, 6, 8, 10, 12], with_corpus=True,
+                                     loops_on_exits=True)
              if pvlib.has(c["blk"], "loop")]
     ctx.cov["rule"] = (
         "definitions of fragment F that contain loops (the small exhaustive family, seeded random ones up to 12 events: "
@@ -83,7 +84,8 @@ def run(ctx: Ctx) -> None:
     reqs = []
     for i, c in enumerate(cases):
         c["pv"] = lc.present(ctx, c["jobs"])
-        reqs.append({"op": "loops", "jobs": c["pv"], "hash_seed": 0, "uuid_seed": ctx.seed * 7919 + i, "timeout": 30})
+        c["uuid_seed"] = ctx.seed * 7919 + i      # node ids decide iteration orders inside detect_loops: replays need it
+        reqs.append({"op": "loops", "jobs": c["pv"], "hash_seed": 0, "uuid_seed": c["uuid_seed"], "timeout": 30})
     reps = pvlib.run_requests(reqs)
     checks: list[tuple[int, str, dict[str, Any]]] = []
     for i, (c, rp) in enumerate(zip(cases, reps)):
@@ -110,7 +112,6 @@ def run(ctx: Ctx) -> None:
                  sample={"definition": c["blk"], "sccs": rp.get("sccs"), "loops": nloops}
                  if ctx.cov["evaluations"] % 61 == 0 else None)
         ctx.tick(f"loops_{min(nloops, 4)}")
-        inp = {"definition": c["blk"], "kind": c["kind"], "file": c.get("file"), "jobs_pv": c["pv"]}
         if "error" in rp:
             lc.report(ctx, c, f"detect_loops failed: {rp['error'][:200]}")
         elif i in failed:
@@ -124,7 +125,8 @@ def run(ctx: Ctx) -> None:
 
 def replay(data: dict[str, Any]) -> int:
     inp = data["input"]
-    rp = pvlib.run_requests([{"op": "loops", "jobs": inp["jobs_pv"], "hash_seed": 0, "timeout": 60}])[0]
+    rp = pvlib.run_requests([{"op": "loops", "jobs": inp["jobs_pv"], "hash_seed": inp.get("hash_seed", 0),
+                              "uuid_seed": inp.get("uuid_seed", 0), "timeout": 60}])[0]
     if "error" in rp:
         print(rp["error"])
         return 1
